@@ -46,6 +46,14 @@ CONFIG = {
   "level_text": "Machine-checked theorems (Lean 4) over the in-place write loop of the assignment kernels, for all matrices, index lists and combining functions (= and op=): frame (shape, element count and every unaddressed element unchanged, on success and on failure), a successful assignment through distinct in-range indices sets the j-th addressed element to f(old, j-th source element), read-back returns what was written, failure is atomic when the selector or the first target fails; the full atomicity statement is refuted by a kernel-checked counterexample (C04-D4). The model is tied to the code by differential runs over every supported cell of the enumerated support table; the implementation is additionally compared with the all-or-nothing reference `update` on every case.",
   "level_note": "Trusted: Lean kernel + propext/Classical.choice/Quot.sound; harness rendering. Partial: only ~19% of the explored (cell, kind) pairs are implemented correctly at the pinned commit; unsupported pairs (C04-D7), wrong-result cells (C04-D8, recorded witnesses) and the non-atomic error path (C04-D4, a decidable behaviour predicate) are known findings.",
  },
+ "C05": {
+  "engine": "core",
+  "rule": "histories of 2-8 statements (define, mutable define, assign, indexed assign with one or two indices, +=, tuple destructure) over names a-d and values (numbers, row vectors, 2x2 matrices, sets, strings, bools, tuples), each statement run by its own interpret() call in one session with the whole symbol table snapshotted after every statement; half the histories are sharing-free (the theorems' domain), half free-form; 3 in 4 statements are valid by construction, the rest hit undefined/immutable/redefined names, failing expressions and out-of-range indices; plus the documented sharing patterns; distinct = distinct case lines",
+  "trusted": ["canonical texts of the opaque literals are a fixed table shared by harness and driver", "records and tables are not generated (no deterministic canonical text yet)"],
+  "assumptions": ["`x + 0` is the fresh-copy expression for numeric values"],
+  "level_text": "Machine-checked theorems (Lean 4) over a model of the interpreter's store (cells, symbols with mutability, statements executed as the interpreter does): redefinition and assignment to undefined or immutable names are rejected without change; a failing statement returns the store unchanged for every statement kind whose kernel cannot fail half-way; the well-formedness invariant (every name owns its own cell) is preserved by every sharing-free statement and so holds for every store reached by a sharing-free history; under it no statement changes what another name reads and no statement changes what an immutable name reads. Kernel-checked counterexamples show the three ways the pinned commit breaks the full statement (C05-D1 definitions from a bare variable share the cell, C05-D2 destructuring binds mutable aliases, C05-D3 multi-index writes are not atomic). The model is tied to the code by differential runs over whole histories; the implementation is also compared with a copy-semantics reference store at every step.",
+  "level_note": "Trusted: Lean kernel + propext/Classical.choice/Quot.sound; harness rendering; assignment-compatibility rule (scalar<-scalar, same storage form for matrices, string<-string, bool<-bool) as observed. Partial: the isolation theorems assume sharing-free histories; the other histories are covered by the model/code correspondence and reported as known findings.",
+ },
  "C07": {
   "engine": "bytecode",
   "rule": "CRC model vs crc32fast on random byte strings; 14 emitted files x (pristine load, byte-exact re-encode, all single-bit flips and all truncations for 3 files (thorough: all), sampled flips/truncations/bursts<=32 bits incl. bursts reaching the trailer); random byte strings; random instruction lists through write_to/from_bytes; distinct = distinct case lines",
